@@ -18,7 +18,7 @@ pub static BACKGROUND: Scenario = Scenario {
     id: "C13",
     name: "c13-background-dialing",
     run,
-    quick_runs: 4000,
+    quick_runs: 8000,
     thorough_runs: 120_000,
     rule: "one run = a dialer Network with PRNG interval (100 ms-5 s), fixed jitter (hook H3), backoff step, maximum backoff, connect timeout and in-flight cap (1-3), 2-4 target Networks, and a known-peer table changed at run time (High / Allowed / Never, the dialer itself, peers without addresses, 1-3 addresses of which some are dead) over a PRNG schedule of 6-40 operations spanning minutes of virtual time (insert / remove peer, block / unblock target, target disconnects, explicit dial competing for the cap), then a final all-reachable phase; connection attempts are observed on the fabric; distinct = distinct order signature (operations and attempt destinations per tick); non-trivial = at least one failed background attempt or a reconnect after loss",
     real: super::REAL_NET,
